@@ -65,9 +65,10 @@ def romanAux : List (Nat × Text) → Nat → Text
   | [], _ => []
   | (v, s) :: rest, n => (List.replicate (n / v) s).flatten ++ romanAux rest (n % v)
 
-/-- Lowercase roman numeral of `0 < n < 4000`. -/
+/-- Lowercase roman numeral of every `n > 0` (greedy: from 4000 on the thousands are repeated `m`,
+there being no numeral above it). -/
 def roman (n : Nat) : Option Text :=
-  if 0 < n ∧ n < 4000 then some (romanAux romanTable n) else none
+  if 0 < n then some (romanAux romanTable n) else none
 
 /-- Value of a numeral in subtractive notation (for the sanity theorem `roman_value`). -/
 def romanDigitValue (c : Nat) : Nat :=
